@@ -30,7 +30,12 @@ NAV_WALKS = [("<math><mfrac><mn>1</mn><mn>2</mn></mfrac><mi>x</mi></math>", ["Zo
              ("<math><msqrt><mn>3</mn></msqrt><mi>x</mi><mo>+</mo><mi>sin</mi><mi>y</mi></math>", ["ZoomIn", "ZoomIn", "MoveNext", "MoveNext", "MoveNext", "MoveNext", "MoveNext"]),
              ("<math><msup><mi>x</mi><mn>2</mn></msup><mi>y</mi><mo>=</mo><mi>f</mi><mo>(</mo><mi>t</mi><mo>)</mo></math>",
               ["ZoomIn", "ZoomIn", "MoveNext", "MoveNext", "MoveNext", "MoveNext", "ZoomIn", "MoveNext", "MoveNext"])]
-TOKENS = ["<math><mtext>if&#x2064;so</mtext><mo>+</mo><mi>x</mi></math>", "<math><mi>up&#x2062;to</mi><mo>=</mo><mn>3</mn></math>",
+UNITS = ["<math><mn>3</mn><mi intent=':unit'>km</mi><mo>+</mo><mn>2</mn><mi intent=':unit'>ms</mi></math>",
+         "<math><mfrac><mrow><mn>62</mn><mi intent=':unit'>mi</mi></mrow><mi intent=':unit'>hr</mi></mfrac><mo>=</mo><mn>5</mn><mi intent=':unit'>kg</mi></math>",
+         "<math><mi>f</mi><mo>(</mo><mi>x</mi><mo>)</mo><mo>=</mo><mrow><mo>{</mo><mtable><mtr><mtd><mn>1</mn></mtd><mtd><mtext>if </mtext><mi>x</mi><mo>&gt;</mo><mn>0</mn></mtd></mtr>"
+         "<mtr><mtd><mn>0</mn></mtd><mtd><mtext>otherwise</mtext></mtd></mtr></mtable></mrow></math>",
+         "<math><mn>1</mn><mi mathvariant='normal' intent=':unit'>μF</mi><mo>=</mo><mn>1000</mn><mi intent=':unit'>nF</mi></math>"]
+TOKENS = UNITS + ["<math><mtext>if&#x2064;so</mtext><mo>+</mo><mi>x</mi></math>", "<math><mi>up&#x2062;to</mi><mo>=</mo><mn>3</mn></math>",
           "<math><mtext>a&#x2061;b&#x2063;c</mtext></math>", "<math><mi>&#xE123;</mi><mo>+</mo><mn>1</mn></math>",
           "<math><mn>1&#x2064;2</mn><mo>+</mo><mi>NaCl</mi></math>"]
 
@@ -46,11 +51,12 @@ def configs(rng, tier):
     # "no speech engine is selected" has several spellings (get_tts lower-cases the value and takes anything it does not know for
     # none), and the preferences that drive an engine's markup may be set all the same: none of it may show in the text.
     # Walked through, not drawn, so that every spelling meets Bookmark=true in every run.
-    spellings = [None, "none", "None", "NONE", "Eloquence"]
+    # ... and the two engines: the markers and brackets are owed to nobody, whatever the engine (only "no markup" is not asked then)
+    spellings = [None, "none", "None", "SSML", "NONE", "Eloquence", "SAPI5"]
     for i, c in enumerate(out):
-        if spellings[i % 5] is not None:
-            c["TTS"] = spellings[i % 5]
-        c["Bookmark"] = "true" if (i // 5) % 2 == 0 else "false"
+        if spellings[i % 7] is not None:
+            c["TTS"] = spellings[i % 7]
+        c["Bookmark"] = "true" if (i // 7) % 2 == 0 else "false"
         c["CapitalLetters_Beep"] = "true" if i % 3 == 0 else "false"
         c["CapitalLetters_Pitch"] = ["0", "20", "-15"][i % 3]
         c["MathRate"] = ["100", "150"][i % 2]
@@ -214,7 +220,8 @@ def run(tier):
                 where = f"{'stayed' if after == cur['pos'] else 'moved'};{edge_in_brackets(cur['tree'], cur['pos'])}"
                 if after == cur["pos"] and s["cfg"].get("NavVerbosity") == "Terse" and rr["v"] == "":
                     continue        # a command that cannot move says so only from NavVerbosity Medium on
-            events.append({"getter": getter, "res": rr["r"], "visible": visible, "out": C.cps(rr["v"]) if rr["r"] == "ok" else [], "inp": cur["inp"]})
+            events.append({"getter": getter, "res": rr["r"], "visible": visible, "out": C.cps(rr["v"]) if rr["r"] == "ok" else [], "inp": cur["inp"],
+                           "engine": 1 if s["cfg"].get("TTS") in ("SSML", "SAPI5") else 0})
             back.append((si, oi, cur["expr"], cur["origin"], where))
     rejects, _, _ = C.validate_trace("Trace_Speech", "Trace_Speech.cfg", events, wd, timeout=3000, heap="12g")
     verdict = C.Verdict(PID)
